@@ -706,14 +706,17 @@ func (tt *TermTable) Eval(t *Term, model map[string]uint64, memo map[int]uint64)
 
 // wide reports whether the term (or a subterm) is wider than 64 bits or uses a UF,
 // in which case Eval is not usable.
-func (tt *TermTable) evaluable(t *Term, memo map[int]bool) bool {
+func (tt *TermTable) evaluable(t *Term, memo map[int]bool, model map[string]uint64) bool {
 	if v, ok := memo[t.id]; ok {
 		return v
 	}
 	ok := t.w <= 64 && t.op != OpUF
+	if ok && t.op == OpVar {
+		_, ok = model[t.name]
+	}
 	if ok {
 		for _, a := range t.args {
-			if !tt.evaluable(a, memo) {
+			if !tt.evaluable(a, memo, model) {
 				ok = false
 				break
 			}
